@@ -59,6 +59,17 @@ func ruleTxTypestate(c *Ctx, r *Report, rule string) {
 		r.viol(rule, "sync root begins exactly one transaction per block", pos, fmt.Sprintf("found %d BeginTx/Begin calls in %s", len(begins), fname(f)))
 		return
 	}
+	// helpers split off from the root work on the root's transaction; none opens one of its own
+	for _, g := range c.family(f) {
+		if g == f {
+			continue
+		}
+		for _, n := range []string{"database/sql.DB.BeginTx", "database/sql.DB.Begin"} {
+			for _, ci := range findCalls(g, n) {
+				r.viol(rule, fname(g)+" begins a transaction of its own", c.ipos(ci), "a second transaction on the sync path: what it commits is not rolled back with the block (and is committed while the recorded height still says the block was not applied)")
+			}
+		}
+	}
 	begin := begins[0].(*ssa.Call)
 	var T, Berr ssa.Value
 	for _, rf := range *begin.Referrers() {
